@@ -23,6 +23,8 @@ import (
 // "wait for what must happen").
 var Watchdog = 30 * time.Second
 
+var hangsSeen int32
+
 // outcome of one case on the real code.
 type outcome struct {
 	line   string   // the result line of the protocol
@@ -42,12 +44,20 @@ func guarded(f func() outcome) outcome {
 		}
 		ch <- o
 	}()
-	t := time.NewTimer(Watchdog)
+	// the first case that does not finish is waited for generously; once a process has seen a hang (the
+	// property has failed on that case already) later cases get a short watchdog, so that a tree on which
+	// many cases hang is reported in bounded time.  Where everything returns nothing changes.
+	wd := Watchdog
+	if atomic.LoadInt32(&hangsSeen) > 0 {
+		wd = 2 * time.Second
+	}
+	t := time.NewTimer(wd)
 	defer t.Stop()
 	select {
 	case o := <-ch:
 		return o
 	case <-t.C:
+		atomic.AddInt32(&hangsSeen, 1)
 		return outcome{line: "hang", fails: []string{"hang: the case did not finish within the watchdog time"}}
 	}
 }
